@@ -70,6 +70,7 @@ type world struct {
 	provKey *jose.JSONWebKey
 	rsaPool []*rsa.PrivateKey
 	n       int
+	skipped int
 }
 
 func newWorld() *world {
@@ -396,6 +397,12 @@ func (w *world) step(ca *fixture.CA, op, newKeyKind string, viaAPI bool, old *x5
 		}
 	}()
 	t1 := time.Now()
+	if c2 := t1.Truncate(time.Second); c2.Before(old.NotBefore) != nyv || c2.After(old.NotAfter) != exp {
+		// the wall clock crossed a validity boundary of a short-lived certificate during the call:
+		// the clock inputs of the model line are not well defined, no verdict for this step
+		w.skipped++
+		return nil, nil
+	}
 	switch {
 	case crashed:
 		return []row{{line, "crash"}}, nil
@@ -877,6 +884,9 @@ func main() {
 			}
 			out.Case(rw.line, rw.impl)
 		}
+	}
+	if w.skipped > 0 {
+		fmt.Printf("skipped %d steps whose certificate crossed a validity boundary during the call\n", w.skipped)
 	}
 	if unissued*4 > len(cases) {
 		fmt.Printf("warning: %d of %d templates were not issuable\n", unissued, len(cases))
